@@ -79,6 +79,8 @@ def main(argv=None):
         if tier == 'thorough' and not args.no_selftest and not args.replay:
             from sa import selftest as st
             selftest = st.run_for_property(prop)
+            selftest['robustness'] = st.robustness_sample(
+                prop, sorted(ctx.funcs_analysed), seed=seed)
         wall = time.time() - t0
     except AnalysisError as e:
         print('ANALYSIS-ERROR property=%s %s' % (prop, e))
@@ -127,6 +129,14 @@ def main(argv=None):
         extra['selftest'] = selftest
         print('selftest: %d variants, %d as expected' % (
             selftest['variants'], selftest['as_expected']))
+        rb = selftest.get('robustness') or {}
+        if rb.get('variants'):
+            print('robustness sample (seed %s): %d behaviour-preserving '
+                  'edits, verdict unchanged on %d' % (
+                      rb.get('seed'), rb['variants'], rb['unchanged']))
+            for c in rb.get('changed', []):
+                print('WARNING checker brittle under %s -> %s' % (
+                    c['site'], c['got']))
     rc = 0
     unlisted = ctx.unlisted()
     rdir = os.path.join(HERE, 'evidence', 'replay')
